@@ -145,10 +145,14 @@ func libWalkDetects(g *ref.Graph) bool {
 // mechanism (error 703) which the recorded finding about the recursion walk does not cover.
 func allOfCycle(g *ref.Graph) bool {
 	parents := func(n *ref.SNode) []string {
-		if r := n.Rule("allOf"); r != nil {
-			return r.AllOf
-		}
-		return nil
+		// allOf rules of the type's root and of every object below it
+		var out []string
+		n.Walk(func(m *ref.SNode) {
+			if r := m.Rule("allOf"); r != nil {
+				out = append(out, r.AllOf...)
+			}
+		})
+		return out
 	}
 	state := map[string]int{}
 	var dfs func(string) bool
@@ -184,8 +188,12 @@ func check(t run.TB, c Case) outcome {
 	defer clearAhead()
 	s, add := lib.Build(c.Spec)
 	var cr lib.Res
+	t0 := time.Now()
 	if msg := timed("Check", 20*time.Second, func() { cr = lib.Check(s) }); msg != "" {
 		run.Fail(t, chk, c, "%s", msg)
+	}
+	if d := time.Since(t0); d > 500*time.Millisecond {
+		run.Note("slow Check (%v) for %s %v", d, c.Spec.Schema, c.Spec.Types)
 	}
 	if add.Panic != "" || cr.Panic != "" {
 		run.Fail(t, chk, c, "panic: add=%v check=%v", add, cr)
@@ -223,7 +231,11 @@ func check(t run.TB, c Case) outcome {
 					named = true
 				}
 			}
-			if cr.Code != 1302 || !named {
+			if !cr.OK && cr.Code == 703 && allOfCycle(g) {
+				// two defects at once (a missing type and inheritance from an enclosing type): which
+				// one is reported first is not specified
+				run.Label("missing-type-and-allOf-cycle")
+			} else if cr.Code != 1302 || !named {
 				run.Fail(t, chk, c, "types %v are missing: expected error 1302 naming one of them, got %v", miss, cr)
 			}
 		}
@@ -236,6 +248,14 @@ func check(t run.TB, c Case) outcome {
 	// (3) recursion
 	switch class {
 	case "A":
+		if !cr.OK && cr.Code == 703 && allOfCycle(g) {
+			// an object that inherits (allOf) from a type enclosing it, behind an optional property or
+			// an array: the value set is well-founded but the inherited property list is not (allOf is
+			// resolved by copying properties when the schema is compiled); the statement's recursion
+			// clause does not say which of the two counts
+			run.Excluded("unspecified:allOf-cycle-through-an-optional-position")
+			return o
+		}
 		o.judged = true
 		if !cr.OK {
 			run.Fail(t, chk, c, "every cycle passes through an optional property, an array or a terminating alternative, but Check rejects: %v", cr)
@@ -257,6 +277,12 @@ func check(t run.TB, c Case) outcome {
 
 	// (4) termination on accepted graphs
 	if cr.OK {
+		t1 := time.Now()
+		defer func() {
+			if d := time.Since(t1); d > 500*time.Millisecond {
+				run.Note("slow Validate/Example (%v) for %s %v docs of %d bytes", d, c.Spec.Schema, c.Spec.Types, len(strings.Join(c.Docs, "")))
+			}
+		}()
 		msg := timed("Validate/Example", 20*time.Second, func() {
 			for _, d := range c.Docs {
 				lib.Validate(s, []byte(d))
